@@ -15,7 +15,7 @@ CHECKS = {
     "C04": ("every fixed-size struct shape (1..3 fields, thorough 4) x every field-id permutation x unroll flag laid out by the real PackedEncoder against a reference layout and the model-free tiling invariant; every generate() history up to length 3 (4) on one live encoder by fork-snapshot; every sequence of <= 3 contexts derived from one kept base context",
             "reference layout fcpmc/reflayout.py; an unrolled array element carries the options declared for its array field; arrays next to fields named like their elements",
             "explicit-state enumeration + fork-snapshot history exploration"),
-    "C07": ("every schema description of a small scope (all grammar productions, nested types to depth 2/3, every extension value form, lexer-colliding identifiers in every slot, ids and sizes at the byte boundaries inside the record's u32 slots, string literals ending in an escaped quote) x every formatting variant (incl. CRLF/CR text, no parentheses, no pipes) parsed by the real front end; oracle: independently built expected tree and cross-variant equality",
+    "C07": ("every schema description of a small scope (all grammar productions, nested types to depth 2/3, every extension value form, lexer-colliding identifiers in every slot, ids and sizes at the byte boundaries inside the record's u32 slots, string literals ending in an escaped quote, enums with several enumerators of one value) x every formatting variant (incl. CRLF/CR text, no parentheses, no pipes) parsed by the real front end; oracle: independently built expected tree and cross-variant equality",
             "expected-tree builder bound to the repository's golden JSON files", "explicit-state enumeration of descriptions x formatting variants"),
     "C08": ("every placement of a referenced declaration (before/after/self/undeclared/imported before/after/nested/dotted) x every wrapper chain x interleaved unrelated declarations, module cases on a real file tree incl. one module reached along two import paths; every acyclic import graph over 4 files (and a family over 5) with one cross-file reference against a visibility model; oracle: resolution spec",
             "duplicate type names are C09's subject", "explicit-state enumeration against a resolution specification"),
